@@ -858,6 +858,11 @@ func (q *checker) bcheckWhile(n *a.While) error {
 			}
 			q.facts.appendFact(o.AsAssert().Condition())
 		}
+		// The first pass cached its (entry-only) bounds in the expression
+		// tree. Drop them, otherwise bcheckExpr returns them straight away.
+		if err := n.Condition().DropExprCachedMBounds(); err != nil {
+			return err
+		}
 		if _, err := q.bcheckExpr(n.Condition(), 0); err != nil {
 			return err
 		}
